@@ -1,7 +1,7 @@
 // Driver of property C17 (testscript honours Params.Deadline).
 //
 //	deadline run   -plan plan.ndjson -traces traces.ndjson -out result.json -work dir [-par n] [-group k]
-//	deadline child -log file -t0file file -x ms -onint die|ignore -status n
+//	deadline child -sock path -id n -x ms -onint die|ignore -status n
 //
 // "run" executes the cases TLC generated (spec/deadline/MC_DeadlinePlan.tla): every case
 // is one script whose only line is a foreground `exec` (or `! exec`) of this binary in
@@ -10,9 +10,9 @@
 // records what happened (one ndjson record per script, times in ms of CLOCK_MONOTONIC since
 // RunT was called) and TLC validates the records against spec/deadline/DeadlineL1.tla.
 //
-// The child stamps its own log (start, signal received, heart beats after an ignored signal,
-// voluntary exit), so the moment the interrupt arrived and the last moment the process was
-// alive are observed inside the child, not inferred.
+// The child stamps its own events (start, a heart beat every 5 ms, signal received, voluntary
+// exit) and sends them to the driver over a unix socket, so the moment the interrupt arrived
+// and the last moment the process was alive are observed inside the child, not inferred.
 package main
 
 import (
@@ -40,6 +40,8 @@ func main() {
 	switch os.Args[1] {
 	case "child":
 		childMain(os.Args[2:])
+	case "noop": // start-up cost probe
+		return
 	case "run":
 		fs := flag.NewFlagSet("run", flag.ExitOnError)
 		plan := fs.String("plan", "", "cases (ndjson) emitted by TLC")
